@@ -125,7 +125,7 @@ func (d *Dump) ShowDb() string {
 		if i > 0 {
 			sb.WriteByte(',')
 		}
-		fmt.Fprintf(&sb, "%s:%d:%d:%s", ShowAddr(e.Address), e.BinID, e.StoreTimestamp, core.Hex(e.Data))
+		fmt.Fprintf(&sb, "%s:%d:%d:%s", ShowAddr(e.Address), e.BinID, e.StoreTimestamp, ShowData(e.Data))
 	}
 	sb.WriteString("] A[")
 	for i, e := range d.Access {
@@ -495,7 +495,7 @@ func (rn *Runner) Step(ctx *core.Ctx, op []string) string {
 					return "bad-op"
 				}
 				a, ok := ParseAddr(f[0])
-				d, err := core.UnHex(f[1])
+				d, err := ParseData(f[1])
 				if !ok || err != nil {
 					return "bad-op"
 				}
@@ -614,7 +614,7 @@ func (rn *Runner) exec(op []string, ev *Event) string {
 			return "wrong-address"
 		}
 		ev.Chunks = [][]byte{ch.Data()}
-		return "chunk " + core.Hex(ch.Data())
+		return "chunk " + ShowData(ch.Data())
 	case "getm":
 		chs, err := db.GetMulti(context.Background(), getModes[ev.Mode], addrsOf(ev.Addrs)...)
 		if ev.Err = errWord(err); ev.Err != "" {
@@ -626,7 +626,7 @@ func (rn *Runner) exec(op []string, ev *Event) string {
 				return "wrong-address"
 			}
 			ev.Chunks = append(ev.Chunks, ch.Data())
-			parts = append(parts, core.Hex(ch.Data()))
+			parts = append(parts, ShowData(ch.Data()))
 		}
 		return "chunks [" + strings.Join(parts, ",") + "]"
 	case "has":
@@ -723,4 +723,31 @@ func (rn *Runner) exec(op []string, ev *Event) string {
 		return "ok"
 	}
 	return "bad-op"
+}
+
+// ParseData reads the data field of a put op: hex, or `@<seed>.<n>` = core.GenBytes(seed, n, 0) (large chunks
+// without megabytes of hex in the op line; Driver/Localstore.lean `parseData` mirrors it).
+func ParseData(t string) ([]byte, error) {
+	if strings.HasPrefix(t, "@") {
+		var seed uint64
+		var n int
+		if k, err := fmt.Sscanf(t, "@%d.%d", &seed, &n); k != 2 || err != nil || n < 0 || n > 1<<24 || t != fmt.Sprintf("@%d.%d", seed, n) {
+			return nil, fmt.Errorf("bad data token")
+		}
+		return core.GenBytes(seed, n, 0), nil
+	}
+	return core.UnHex(t)
+}
+
+// ShowData prints chunk data in dumps and results: hex up to 256 bytes, beyond that `#<len>.<h>` with the
+// 64-bit polynomial digest h = fold (h*31 + b) (wrapping), so that a dump line with many large chunks stays small.
+func ShowData(d []byte) string {
+	if len(d) <= 256 {
+		return core.Hex(d)
+	}
+	var h uint64
+	for _, b := range d {
+		h = h*31 + uint64(b)
+	}
+	return fmt.Sprintf("#%d.%d", len(d), h)
 }
